@@ -143,7 +143,7 @@ theorem cancellation_propagates (p : String × Coop.Sk) (hp : p ∈ Skeletons.al
 /-- non-vacuity: a consumer loop that wraps its callbacks in a bare `except:` which only logs swallows a cancellation that lands
 inside a callback (the loop goes on: outcome `fall`), and the analysis sees it; with `except Exception:` it does not -/
 example : Coop.Cancelled (.loop (.tryExc (.ev (.aw "self.async_handled")) (.seq (.ev (.act ⟨.exc, ""⟩)) (.ev (.act ⟨.call, "log"⟩))))) .fall :=
-  Coop.Cancelled.loopNow (o := .fall) (Coop.Cancelled.tryCaught (hb := .ev (.act ⟨.call, "log"⟩)) (t := [.act ⟨.call, "log"⟩]) (Coop.Cancelled.aw _) (by decide) (Coop.Run.ev _))
+  Coop.Thrown.loopNow (o := .fall) (Coop.Thrown.tryCaught (hb := .ev (.act ⟨.call, "log"⟩)) (t := [.act ⟨.call, "log"⟩]) (Coop.Thrown.at _ rfl) (by decide) (Coop.Run.ev _))
 example : Coop.neverSwallowsCancel (.loop (.tryExc (.ev (.aw "self.async_handled")) (.seq (.ev (.act ⟨.exc, ""⟩)) (.ev (.act ⟨.call, "log"⟩))))) = false ∧
     Coop.neverSwallowsCancel (.loop (.tryExc (.ev (.aw "self.async_handled")) (.seq (.ev (.act ⟨.exc, "Exception"⟩)) (.ev (.act ⟨.call, "log"⟩))))) = true := by
   decide +kernel
